@@ -20,6 +20,9 @@ PROP = 'C12'
 NAMES = ['a', 'b1']
 FIXED = ['n', "it's", '']
 TYPES = ['T']
+# identifier spellings textX's ID admits ([^\d\W]\w*): attribute and rule names of a grammar may be any of them
+IDENTS = ['a', '_', '_1', 'A9', 'b_c', '\u00e4', '\u00e4mter', 'gr\u00f6\u00dfe', '\u00f1_', '\u03bb', '\u03a91', '\u0436\u0443\u043a',
+          'parent', 'parents', 'm', 'p', 'mp']
 FLAGS = ['', 'm', 'p', 'mp']
 
 
@@ -103,6 +106,28 @@ def build_sequence(sel, depth, lite=False, head=None):
     if sel.flag('second-path'):
         paths.append(build_path(sel, 0, lite=True))
     return R.RRELSequence(paths)
+
+
+def ident_sequence(sel):
+    """identifier family: one element over every identifier spelling"""
+    import textx.scoping.rrel as R
+    ident = IDENTS[sel.choose(len(IDENTS), 'ident')]
+    shape = sel.choose(4, 'shape')
+    if shape == 0:
+        e = R.RRELNavigation(ident, True, None)
+    elif shape == 1:
+        e = R.RRELNavigation(ident, False, None)
+    elif shape == 2:
+        e = R.RRELNavigation(NAMES[0], False, ident)
+    else:
+        e = R.RRELParent(ident)
+    if sel.flag('star'):
+        e = R.RRELZeroOrMore(e)
+    head = sel.choose(3, 'head')
+    elems = ([] if head == 0 else ['^'] if head == 1 else [R.RRELDots(2)]) + [e]
+    if sel.flag('second-part'):
+        elems.append(R.RRELNavigation(ident, True, None))
+    return R.RRELSequence([R.RRELPath(elems)])
 
 
 def nest_elem(sel, d):
@@ -256,6 +281,8 @@ def explore(item):
         sel = Sel(c)
         if head == 'nest':
             seq = nest_seq(sel, depth)
+        elif head == 'ident':
+            seq = ident_sequence(sel)
         else:
             seq = build_sequence(sel, depth, head=head)
         tree = R.RRELExpression(seq, flags)
@@ -287,6 +314,7 @@ def main():
     max_paths = 40000 if quick else 400000
     items = [(depth, f, max_paths, h) for f in FLAGS for h in HEADS]
     items += [(2, f, max_paths, 'nest') for f in (['', 'mp'] if quick else FLAGS)]
+    items += [(0, f, max_paths, 'ident') for f in (['', 'mp'] if quick else FLAGS)]
     items.sort(key=lambda it: it[3] != 'nest')
     results = pmap(explore, items)
     chk.cov['functions_encoded'] = src_hash(R.RRELExpression.__repr__, R.RRELPath.__repr__,
@@ -295,8 +323,8 @@ def main():
                                             R.RRELDots.__repr__, R.RRELParent.__repr__, R.parse)
     chk.cov['bounds'] = {'bracket_nesting_depth': depth, 'paths_per_sequence': '2 (second path from a reduced set)',
                          'parts_per_path': '2 (second part from a reduced set)',
-                         'flags': FLAGS, 'names': NAMES, 'fixed_names': FIXED}
-    chk.cov['outside_claim'] = ['deeper nesting / longer paths', 'other identifier and fixed-name spellings']
+                         'flags': FLAGS, 'names': NAMES, 'fixed_names': FIXED, 'identifier_spellings': IDENTS}
+    chk.cov['outside_claim'] = ['deeper nesting / longer paths', 'identifier and fixed-name spellings other than the listed ones']
     chk.assumptions = ['finite tree space enumerated exhaustively (solver-steered selectors)']
     chk.cov['stubs'] = ['while rrel.parse runs, `from arpeggio import ParserPython` yields a memoising factory (parser built once); rrel.parse and Arpeggio are unchanged']
     paths = 0
@@ -314,7 +342,7 @@ def main():
                 chk.known_hit(fid, '%r: %s' % (s, err))
             else:
                 chk.violation('%r (flags %r): %s' % (s, r['flags'], err), {'printed': s, 'flags': r['flags'],
-                                                                            'error': err})
+                                                                            'error': err, 'head': it[3], 'depth': it[0]})
         chk.sample({'depth': r['depth'], 'flags': r['flags'], 'trees': r['paths'], 'example': r['sample'],
                     'failing': r['nbad']})
     chk.cov['paths_explored'] = paths
@@ -329,7 +357,7 @@ def replay(data):
     """the printed form came from a tree; rebuild the original by parsing the
     expected source form is not possible when printing loses information, so the
     replay re-runs the exploration for that flag set and reports the first failure"""
-    r = explore((0, data.get('flags', ''), 400000, None))
+    r = explore((data.get('depth', 0), data.get('flags', ''), 400000, data.get('head')))
     for cls_, (s, err) in r['bad'].items():
         if s == data.get('printed') or True:
             return True, {'printed': s, 'error': err}
